@@ -10,14 +10,13 @@ EXTENDS Repo, Json, IOUtils
 
 Rec == ndJsonDeserialize(IOEnv.TRACE)
 
-VARIABLES l,        \* next record
-          par, chg, dsc, emp,       \* observed commits (sequences indexed by commit)
-          opPar, opView, opPreds    \* observed operations (sequences indexed by op)
-
-vars == <<l, par, chg, dsc, emp, opPar, opView, opPreds>>
+(* The observed state lives in the machine's own variables: par/chg/dsc/emp *)
+(* = the observed commit graph, ops = the observed operations (parents,     *)
+(* view, predecessor records).  opHeads, tx, aux are not observed.          *)
+VARIABLE l          \* next record
+tvars == <<l, vars>>
 
 ToView(j) == [heads |-> ToSet(j.heads), bm |-> j.bm, wc |-> j.wc]
-RootView == [heads |-> {Root}, bm |-> <<<<0>>, <<0>>>>, wc |-> <<0, 0>>]
 EmptyFn == [x \in {} |-> <<>>]
 (* <<k, v>> pairs -> function *)
 PairsToFn(ps) == [k \in {ps[i][1] : i \in 1..Len(ps)} |->
@@ -35,9 +34,9 @@ Dsc1(new) == dsc \o [i \in 1..Len(new) |-> new[i][4]]
 Emp1(new) == emp \o [i \in 1..Len(new) |-> new[i][5]]
 
 RECURSIVE AncOps(_)
-AncOps(S) == LET P == UNION {ToSet(opPar[o]) : o \in S} IN IF P \subseteq S THEN S ELSE AncOps(S \cup P)
+AncOps(S) == LET P == UNION {ToSet(ops[o].parents) : o \in S} IN IF P \subseteq S THEN S ELSE AncOps(S \cup P)
 RECURSIVE UnionPreds(_)
-UnionPreds(S) == IF S = {} THEN EmptyFn ELSE LET o == CHOOSE o \in S : TRUE IN opPreds[o] @@ UnionPreds(S \ {o})
+UnionPreds(S) == IF S = {} THEN EmptyFn ELSE LET o == CHOOSE o \in S : TRUE IN ops[o].preds @@ UnionPreds(S \ {o})
 
 HasNew(r) == r.op \in {"rebase", "commit", "merge", "walk"}
 NewOf(r) == IF HasNew(r) THEN r.new ELSE <<>>
@@ -51,17 +50,17 @@ Verdicts(r) ==
        {RebaseVerdict(p, c, d, e, ToView(r.v0), RecsToFn(r.map), RecsToFn(r.rb),
                       [empty |-> r.empty, del |-> r.del], ToView(r.v1), r.nold)}
   ELSE IF r.op = "commit" THEN
-       IF r.opid # Len(opPar) + 1 THEN {"harness:bad-op-id"}
+       IF r.opid # Len(ops) + 1 THEN {"harness:bad-op-id"}
        ELSE {ViewVerdict(p, ToView(r.view)),
              PredsVerdict(PairsToFn(r.preds), ToSet(r.pending), ToSet(r.created))}
   ELSE IF r.op = "merge" THEN
-       IF r.opid # Len(opPar) + 1 THEN {"harness:bad-op-id"}
+       IF r.opid # Len(ops) + 1 THEN {"harness:bad-op-id"}
        ELSE {ViewVerdict(p, ToView(r.view)),
              PredsVerdict(PairsToFn(r.preds), {},
                           ((r.nold + 1)..Len(p)) \cap Visible(p, ToSet(r.view.heads))),
              IF r.kind = "pair" /\ Len(r.parents) = 2
-             THEN MergeVerdict(p, c, d, e, PairsToFn(r.preds) @@ UnionPreds(1..Len(opPar)),
-                               opView[r.base], opView[r.parents[1]], opView[r.parents[2]],
+             THEN MergeVerdict(p, c, d, e, PairsToFn(r.preds) @@ UnionPreds(1..Len(ops)),
+                               ops[r.base].view, ops[r.parents[1]].view, ops[r.parents[2]].view,
                                ToView(r.view), r.nold)
              ELSE "ok"}
   ELSE IF r.op = "walk" THEN
@@ -75,31 +74,30 @@ Verdicts(r) ==
        ELSE {"Panic"}
   ELSE {"harness:unknown-op"}
 
-Init == /\ l = 1
-        /\ par = <<<<>>>> /\ chg = <<0>> /\ dsc = <<0>> /\ emp = <<TRUE>>
-        /\ opPar = <<<<>>>> /\ opView = <<RootView>> /\ opPreds = <<EmptyFn>>
+RootOp == [parents |-> <<>>, view |-> RootView, preds |-> EmptyFn]
+TraceInit == /\ l = 1
+             /\ par = <<<<>>>> /\ chg = <<0>> /\ dsc = <<0>> /\ emp = <<TRUE>>
+             /\ ops = <<RootOp>> /\ opHeads = {1} /\ tx = NoTx /\ aux = NoAux
 
 Observe(r) ==
   LET new == NewOf(r) IN
   IF r.op = "reset" THEN
-       /\ par' = <<<<>>>> /\ chg' = <<0>> /\ dsc' = <<0>> /\ emp' = <<TRUE>>
-       /\ opPar' = <<<<>>>> /\ opView' = <<RootView>> /\ opPreds' = <<EmptyFn>>
+       /\ par' = <<<<>>>> /\ chg' = <<0>> /\ dsc' = <<0>> /\ emp' = <<TRUE>> /\ ops' = <<RootOp>>
   ELSE /\ par' = Par1(new) /\ chg' = Chg1(new) /\ dsc' = Dsc1(new) /\ emp' = Emp1(new)
        /\ IF r.op \in {"commit", "merge"}
-          THEN /\ opPar' = Append(opPar, r.parents)
-               /\ opView' = Append(opView, ToView(r.view))
-               /\ opPreds' = Append(opPreds, PairsToFn(r.preds))
-          ELSE UNCHANGED <<opPar, opView, opPreds>>
+          THEN ops' = Append(ops, [parents |-> r.parents, view |-> ToView(r.view), preds |-> PairsToFn(r.preds)])
+          ELSE UNCHANGED ops
 
-Next ==
+TraceNext ==
   \/ /\ l <= Len(Rec)
      /\ LET bad == Verdicts(Rec[l]) \ {"ok"} IN
           \A v \in bad : PrintT(<<"BAD", l, v>>)
      /\ Observe(Rec[l])
      /\ l' = l + 1
+     /\ UNCHANGED <<opHeads, tx, aux>>
   \/ /\ l = Len(Rec) + 1
      /\ PrintT(<<"JUDGED", Len(Rec)>>)
      /\ l' = l + 1
-     /\ UNCHANGED <<par, chg, dsc, emp, opPar, opView, opPreds>>
-Spec == Init /\ [][Next]_vars
+     /\ UNCHANGED vars
+TraceSpec == TraceInit /\ [][TraceNext]_tvars
 =============================================================================
